@@ -494,8 +494,9 @@ def WireHitOK (w : Bytes) (qtype qclass : UInt16) (cd : Bool) (es : List Entry) 
 
 /-- **Wire path of `Cache.ServeDNS`** (`serveWire`, chase, `serveCompositeFromWire`,
 then the decoded fallback), all rungs. -/
-theorem ladder_identity_serveWire (H : Bytes → UInt64) (W : World) (w : Bytes) (qtype qclass : UInt16) (cd : Bool) :
-    match serveWire H W w qtype qclass cd with
+theorem ladder_identity_serveWire (H : Bytes → UInt64) (W : World) (w : Bytes) (qtype qclass : UInt16) (cd : Bool)
+    (due : Entry → Bool) :
+    match serveWire H W w qtype qclass cd due with
     | Outcome.hit es => WireHitOK w qtype qclass cd es
     | Outcome.cut c => cd = false ∧ c.qclass = qclass ∧
         ((∃ z ∈ wireSuffixes w.length w, ∃ pz, present z = some pz ∧ foldName pz = foldName c.name) ∨
@@ -537,6 +538,9 @@ theorem ladder_identity_serveWire (H : Bytes → UInt64) (W : World) (w : Bytes)
   | some e =>
     simp only
     obtain ⟨p, hp, hid⟩ := route_identity_wireHit H W.st w qtype qclass cd e hw
+    by_cases hdue : due e = true
+    · simp only [hdue, if_true]; exact decoded
+    simp only [hdue]
     cases ha : e.alias with
     | none => exact ⟨e, [], p, rfl, hp, hid, trivial⟩
     | some t =>
@@ -754,6 +758,127 @@ theorem reset_question_exact (H : Bytes → UInt64) (s : AFStore) (name : Bytes)
         simp only [Bool.and_eq_true, beq_iff_eq, decide_eq_true_eq] at hc
         exact ⟨rfl, hc.1.1.1.1.1, hc.1.1.1.1.2, hc.1.1.1.2, hc.1.1.2, hc.1.2, hc.2⟩
       · cases hl
+
+/-! ## Admission through the miss path and background refresh -/
+
+/-- **`ClampScope` is exact**: same family and address as the authority's scope, and
+as many bits as the smallest of SCOPE, SOURCE and the operator's floor OF THAT FAMILY. -/
+theorem clampScope_bits (p : Policy) (scope source : Prefix) :
+    (clampScope p scope source).v6 = scope.v6 ∧
+    (clampScope p scope source).bits =
+      min (min scope.bits source.bits) (if scope.v6 then p.minScopeV6 else p.minScopeV4) ∧
+    (clampScope p scope source).addr = maskBytes (clampScope p scope source).bits scope.addr := by
+  unfold clampScope Prefix.withBits
+  refine ⟨rfl, ?_, rfl⟩
+  cases hv : scope.v6 <;>
+    simp only [if_true, if_false, Bool.false_eq_true, Nat.min_def] <;>
+    (repeat' split) <;> omega
+
+theorem maskBytes_maskBytes_le (a b : Nat) (h : a ≤ b) (x : Bytes) :
+    maskBytes a (maskBytes b x) = maskBytes a x := by
+  induction x generalizing a b with
+  | nil => rfl
+  | cons y t ih =>
+    simp only [maskBytes, List.cons.injEq]
+    refine ⟨?_, ih (a - 8) (b - 8) (by omega)⟩
+    unfold maskByte
+    by_cases hb : b ≥ 8
+    · simp [hb]
+    · have ha : ¬ a ≥ 8 := by omega
+      simp only [hb, ha, if_false]
+      have hy : y.toNat < 256 := UInt8.toNat_lt y
+      have hpb : 0 < 2 ^ (8 - b) := Nat.two_pow_pos _
+      have hle : y.toNat / 2 ^ (8 - b) * 2 ^ (8 - b) ≤ y.toNat := Nat.div_mul_le_self _ _
+      have hlt : y.toNat / 2 ^ (8 - b) * 2 ^ (8 - b) < 256 := by omega
+      have e1 : (UInt8.ofNat (y.toNat / 2 ^ (8 - b) * 2 ^ (8 - b))).toNat = y.toNat / 2 ^ (8 - b) * 2 ^ (8 - b) := by
+        simp [UInt8.toNat_ofNat', Nat.mod_eq_of_lt hlt]
+      rw [e1]
+      -- clearing the low (8-b) bits and then the low (8-a) ⊇ them is clearing the low (8-a) bits
+      have hsplit : 2 ^ (8 - a) = 2 ^ (8 - b) * 2 ^ (b - a) := by
+        rw [← Nat.pow_add]; congr 1; omega
+      have : y.toNat / 2 ^ (8 - b) * 2 ^ (8 - b) / 2 ^ (8 - a) = y.toNat / 2 ^ (8 - a) := by
+        rw [hsplit, ← Nat.div_div_eq_div_mul, Nat.mul_div_cancel _ hpb, Nat.div_div_eq_div_mul]
+      rw [this]
+
+/-- **The audience an answer is admitted for, exactly** (`WriteMsg` with a SCOPE in the
+response): the network of the asking client's forwarded source of length
+`min(SCOPE, SOURCE, floor of the source's family)` — never wider than the floor allows,
+whatever the other family's floor is, and always containing the asking client. -/
+theorem admitted_audience_exact (p : Policy) (src : Prefix) (sb : Nat) (s : Prefix)
+    (h : admitScope p (some src) (some sb) = some s) :
+    s.v6 = src.v6 ∧
+    s.bits = min (min sb src.bits) (if src.v6 then p.minScopeV6 else p.minScopeV4) ∧
+    s.addr = maskBytes s.bits src.addr ∧ s.containsPrefix src := by
+  unfold admitScope responseScope at h
+  by_cases h0 : sb = 0
+  · simp [h0] at h
+  · simp only [h0, if_false, Option.some.injEq] at h
+    subst h
+    obtain ⟨h1, h2, h3⟩ := clampScope_bits p (src.withBits sb) src
+    have hb : (clampScope p (src.withBits sb) src).bits ≤ sb := by
+      rw [h2]; simp only [Prefix.withBits]; omega
+    have haddr : (clampScope p (src.withBits sb) src).addr =
+        maskBytes (clampScope p (src.withBits sb) src).bits src.addr := by
+      rw [h3]; simp only [Prefix.withBits]
+      exact maskBytes_maskBytes_le _ _ hb _
+    refine ⟨h1, h2, haddr, h1, ?_, haddr.symm⟩
+    rw [h2]; simp only [Prefix.withBits]; omega
+
+/-- no SCOPE in the response, SCOPE 0, or a request outside ECS-aware caching: shared. -/
+theorem admitted_shared_otherwise (p : Policy) (client : Scope) (sbits : Option Nat)
+    (h : client = none ∨ sbits = none ∨ sbits = some 0) : admitScope p client sbits = none := by
+  unfold admitScope responseScope
+  rcases h with h | h | h <;> subst h
+  · rfl
+  · cases client <;> rfl
+  · cases client <;> rfl
+
+/-- **`WriteMsg` files the answer under its own key with that identity**: question and CD
+of the response, the clamped scope both in the key preimage and on the entry. -/
+theorem admit_records_identity (H : Bytes → UInt64) (p : Policy) (s : AStore) (id : Nat) (name : Bytes)
+    (qtype qclass : UInt16) (cd : Bool) (client : Scope) (sbits : Option Nat) :
+    ∃ e, (admit H p s id name qtype qclass cd client sbits).get
+          ((CacheKey.mk name qtype qclass cd (admitScope p client sbits)).hash H) = some e ∧
+      Identical e name qtype qclass cd (admitScope p client sbits) := by
+  unfold admit
+  exact (admission_records_identity s _ id name qtype qclass cd _ none).1
+
+/-- **A refresh asks, and files, the question of the partition it refreshes.**  If the hit
+that queued the refresh was verified for `trigger` (as `handleCacheHit` does) and the CAS
+succeeds, the new entry is identical to the question `processPrefetch` SENT UPSTREAM —
+name, type, class and above all the CD bit — and keeps the audience. -/
+theorem refresh_answers_own_question (s : AStore) (key : UInt64) (expected : Entry) (trigger : Req) (newId : Nat)
+    (scope : Scope)
+    (hver : entryMatchesKey expected ⟨trigger.name, trigger.qtype, trigger.qclass, trigger.cd, scope⟩ = true)
+    (hok : (processPrefetch s key expected trigger newId).2 = true) :
+    let asked := prefetchRequest trigger
+    ∃ e, (processPrefetch s key expected trigger newId).1.get key = some e ∧
+      Identical e asked.name asked.qtype asked.qclass asked.cd scope := by
+  intro asked
+  have := (replacement_keeps_partition s key expected newId asked.name asked.qtype asked.qclass none).1
+  unfold processPrefetch at hok ⊢
+  obtain ⟨e, he, hcd, hsc, hn, ht, hc⟩ := this hok
+  obtain ⟨⟨_, _, _, h4, h5⟩, _⟩ := (entryMatchesKey_iff _ _).mp hver
+  refine ⟨e, he, by rw [hn], ht, hc, ?_, ?_⟩
+  · rw [hcd, h4]; rfl
+  · rw [hsc, h5]
+
+/-- the refresh request is the trigger's question in the trigger's CD partition. -/
+theorem refresh_request_keeps_partition (t : Req) :
+    (prefetchRequest t).name = t.name ∧ (prefetchRequest t).qtype = t.qtype ∧
+    (prefetchRequest t).qclass = t.qclass ∧ (prefetchRequest t).cd = t.cd := ⟨rfl, rfl, rfl, rfl⟩
+
+-- non-vacuity: forward /56, floor /48 (v6) and /24 (v4): a /56-scoped answer for 2001:db8:aaaa:bb00::/56
+-- is admitted for 2001:db8:aaaa::/48 — not for the /24 the IPv4 floor would give
+example :
+    admitScope { forwardV4 := 24, forwardV6 := 56, minScopeV4 := 24, minScopeV6 := 48 }
+      (some { v6 := true, bits := 56, addr := [0x20, 0x01, 0x0d, 0xb8, 0xaa, 0xaa, 0xbb, 0, 0, 0, 0, 0, 0, 0, 0, 0] }) (some 56) =
+    some { v6 := true, bits := 48, addr := [0x20, 0x01, 0x0d, 0xb8, 0xaa, 0xaa, 0, 0, 0, 0, 0, 0, 0, 0, 0, 0] } := by decide
+-- non-vacuity: a CD=1 entry refreshed: the replacement is in the CD=1 partition
+example :
+    let e : Entry := { id := 1, name := [0x61, 0x2E], qtype := 1, qclass := 1, cd := true, scope := none }
+    (processPrefetch [(5, e)] 5 e ⟨[0x41, 0x2E], 1, 1, true, false⟩ 2).1.get 5 =
+      some { id := 2, name := [0x41, 0x2E], qtype := 1, qclass := 1, cd := true, scope := none } := by decide
 
 /-! ## Facts regenerated from the tree -/
 
